@@ -227,6 +227,14 @@ def make_runner(env, cfg=None):
             r.add_new_result("choice", Result.CHOICETYPE, g % 4, 4)
             return r
 
+        def _on_simulate_start(self):
+            # documented hook, called once at the beginning of simulate():
+            # a subclass may adjust its parameters here
+            h = getattr(env, "on_start", None)
+            if h is not None:
+                env.on_start = None
+                h()
+
         def _keep_going(self, current_params, current_sim_results,
                         current_rep):
             v = self._variation_of(current_params)
